@@ -266,6 +266,9 @@ func (fr *Frame) ctx(st *State, li *loopInfo) *EvalCtx {
 				if li.rangeIdx != nil {
 					return Binding{term: app("+", fr.val(li.rangeIdx), leaf("1")), typ: tInt}, true
 				}
+				if li.mapIter != nil {
+					return Binding{term: fr.vc.comp(st, "ITERN:"+fr.fn.String()+":"+li.mapIter.Name(), "Int"), typ: tInt}, true
+				}
 			case "$s":
 				if li.rangeSeq != nil {
 					return Binding{term: fr.val(li.rangeSeq), typ: li.rangeSeq.Type()}, true
@@ -276,6 +279,14 @@ func (fr *Frame) ctx(st *State, li *loopInfo) *EvalCtx {
 					vk := "ITER:" + fr.fn.String() + ":" + li.mapIter.Name()
 					vs := "(Array " + fr.vc.sortOf(mt.Key()) + " Bool)"
 					return Binding{term: fr.vc.comp(st, vk, vs), g: &GType{Kind: "map", Key: &GType{Kind: "go", Go: mt.Key()}, Val: &GType{Kind: "bool"}}}, true
+				}
+			}
+		}
+		// a variable captured by reference: the name denotes the captured cell (its value changes over the call)
+		for _, fv := range fr.fn.FreeVars {
+			if fv.Name() == name {
+				if pt, ok := fv.Type().Underlying().(*types.Pointer); ok {
+					return Binding{term: fr.val(fv), typ: pt.Elem(), isAddr: true}, true
 				}
 			}
 		}
@@ -916,6 +927,31 @@ func (ctx *EvalCtx) call(e *CExpr) TV {
 			cs = append(cs, leaf(fmt.Sprintf("(forall ((ua Int)) (! (=> (<= (base ua) %s) (= (select %s ua) (select %s ua))) :pattern ((select %s ua))))", wmRef, h1, h0, h1)))
 		}
 		return boolTV(mkAnd(cs...))
+	case "mapsUnchangedOld", "mapsUnchangedPre":
+		// every Go map of type T that existed at function entry (at loop entry) has the same keys, values and size
+		ref := ctx.old
+		if name == "mapsUnchangedPre" {
+			ref = ctx.pre
+		}
+		if ref == nil {
+			ctx.fail("%s not available here", name)
+		}
+		g := vc.parseType(e.Args[0].String(), ctx.pkg)
+		mt, ok := g.Go.Underlying().(*types.Map)
+		if !ok {
+			ctx.fail("%s needs a map type", name)
+		}
+		kd, sd := vc.mapDomKey(mt)
+		kv, sv := vc.mapValKey(mt)
+		var cs []*Term
+		for _, ks := range [][2]string{{kd, sd}, {kv, sv}, {"MS", "(Array Int Int)"}} {
+			h0, h1 := vc.comp(ref, ks[0], ks[1]), vc.comp(ctx.st, ks[0], ks[1])
+			if same(h0, h1) {
+				continue
+			}
+			cs = append(cs, leaf(fmt.Sprintf("(forall ((um Int)) (! (=> (<= (base um) %s) (= (select %s um) (select %s um))) :pattern ((select %s um))))", vc.wm(ref), h1, h0, h1)))
+		}
+		return boolTV(mkAnd(cs...))
 	case "unchangedPreBut":
 		// unchangedPreBut(T, x): like unchangedPre(T) except for the cells of the array/object x
 		if ctx.pre == nil {
@@ -1073,6 +1109,22 @@ func (ctx *EvalCtx) call(e *CExpr) TV {
 		}
 		a, _ := ctx.addrOf(e.Args[0])
 		return intTV(app("-", mkSelect(vc.comp(ctx.st, "acq", "(Array Int Int)"), a), mkSelect(vc.comp(ctx.old, "acq", "(Array Int Int)"), a)))
+	case "onlyAcquires":
+		// onlyAcquires(l1, ..., ln): no mutex other than the listed ones has been acquired since function entry
+		if ctx.old == nil {
+			ctx.fail("onlyAcquires() needs a pre-state")
+		}
+		var ex []*Term
+		for _, a := range e.Args {
+			ad, _ := ctx.addrOf(a)
+			ex = append(ex, mkNot(mkEq(leaf("al"), ad)))
+		}
+		a1, a0 := vc.comp(ctx.st, "acq", "(Array Int Int)"), vc.comp(ctx.old, "acq", "(Array Int Int)")
+		if same(a1, a0) {
+			return boolTV(tTrue)
+		}
+		cond := mkAnd(ex...)
+		return boolTV(leaf(fmt.Sprintf("(forall ((al Int)) (! (=> %s (= (select %s al) (select %s al))) :pattern ((select %s al))))", cond, a1, a0, a1)))
 	case "locksUnchanged":
 		// the set of mutexes held is the same as at function entry
 		if ctx.old == nil {
